@@ -7,7 +7,10 @@ EXTENDS Integers, Sequences, TLC, Json, IOUtils
 Rec == ndJsonDeserialize(IOEnv.TRACE)
 VARIABLE l
 Init == l = 1
-Step(ev) == ev.out = "ok" /\ ev.finite = TRUE /\ ev.rss_not_increased = TRUE /\ ev.cov_shape_ok = TRUE /\ ev.ls_dev_log2 <= -20
+\* covariance = s^2 (J^T J)^-1 AT THE RETURNED POINT: (J^T J) C - s^2 I, in units of eps (p ||J^T J|| ||C|| + s^2) plus the rounding
+\* floor of the residual sum of squares, stays below 64 (measured maximum on the unchanged tree over 3 600 fits: 1)
+Step(ev) == /\ ev.out = "ok" /\ ev.finite = TRUE /\ ev.rss_not_increased = TRUE /\ ev.cov_shape_ok = TRUE /\ ev.ls_dev_log2 <= -20
+            /\ ev.cov_resid >= 0 /\ ev.cov_resid <= 64
 Next == l <= Len(Rec) /\ Step(Rec[l]) /\ l' = l + 1
 Spec == Init /\ [][Next]_l
 Accepted == LET d == TLCGet("stats").diameter IN
